@@ -44,7 +44,7 @@ impl Mesh {
                 let v = point - closest.point;
                 if v.norm() < 1e-6 {
                     closest.normal
-                } else if closest.normal.dot(&v) > 0.0 {
+                } else if closest.normal.dot(&v) >= 0.0 {
                     UnitVec3::new_normalize(v)
                 } else {
                     -UnitVec3::new_normalize(v)
